@@ -76,3 +76,37 @@ func copiedMemo() func(h *Holder) {
 	once := sync.OnceValue(func() *Node { return GetNode() })
 	return func(h *Holder) { h.Child = cloneNode(once()) }
 }
+
+// released-once: buildTree stores one Ref value in two slots; PutTreeTwice releases the node below through both.
+type Ref struct{ Sub *Node }
+type Pair struct{ Left, Right Ref }
+type Tree struct {
+	From  []Ref
+	Joins []Pair
+}
+
+func buildTree(n, m *Node) *Tree {
+	r := Ref{Sub: n}
+	t := &Tree{From: []Ref{r}}
+	t.Joins = append(t.Joins, Pair{Left: r, Right: Ref{Sub: m}})
+	return t
+}
+
+func PutTreeTwice(t *Tree) {
+	for i := range t.From {
+		PutNode(t.From[i].Sub)
+	}
+	for i := range t.Joins {
+		PutNode(t.Joins[i].Left.Sub)
+		PutNode(t.Joins[i].Right.Sub)
+	}
+}
+
+func PutTreeOnce(t *Tree) {
+	for i := range t.From {
+		PutNode(t.From[i].Sub)
+	}
+	for i := range t.Joins {
+		PutNode(t.Joins[i].Right.Sub)
+	}
+}
